@@ -10,6 +10,14 @@
 //!                                 `L <d>` = number of Layout fields that differ when the same tree is laid out with the REAL cache
 //!                                 key (the recorded lossy-cache-key finding; 0 = identical).  Last line: `SUMMARY ...`.
 //! `vh blocktree case <seed> <idx>`           one case again, with the tree printed
+//! `vh blocktree cases <seed> <n> <start> real`   the same cases laid out WITHOUT the exact-key hook (the cache users get): `R` = after
+//!                                 every pass, per node in pre-order, the 21 layout ints, then the number of compute_cached_layout
+//!                                 calls on the node in that pass, the number of those answered by the cache (event trace hook) and the
+//!                                 number of measure-function calls for that node (counted by the measure closure, per NodeId);
+//!                                 compared with Model/BlockEngineRealRun.run_case_real (Model/EngineReal.v `memo_real`)
+//! `vh blocktree chains <n> [start]`          deterministic single-child chains of block containers (depth 1..16, 6 container
+//!                                 style mixes, 2 measured leaves, 3 available spaces; idx < 576) in the `real` format; `Q` = total number
+//!                                 of queries (chains with more than CHAIN_QUERY_LIMIT queries print `SKIP <idx> <queries>` instead)
 //!
 //! Generator (what the model covers): every node with children is display:block (or display:none); leaves are display
 //! block / flex / grid / none; sizes, min/max sizes (lengths, percentages, auto), padding / border (lengths, percentages),
@@ -126,6 +134,122 @@ fn lay_out(spec: &NodeSpec, passes: &[Size<AvailableSpace>], exact: bool) -> Vec
     r
 }
 
+/// REAL cache (no exact-key hook): layouts + per-node (queries, hits, measure calls) of every pass; second result = total queries
+fn lay_out_real(spec: &NodeSpec, passes: &[Size<AvailableSpace>], query_limit: u64) -> Option<(Vec<u64>, u64)> {
+    use std::cell::RefCell;
+    use std::collections::HashMap;
+    taffy::verif_hooks::set_exact_key(false);
+    let mut t: TaffyTree<Ctx> = TaffyTree::new();
+    t.disable_rounding();
+    let mut ids = vec![];
+    let root = treegen::build(&mut t, spec, &mut ids);
+    let mut r = vec![];
+    let mut total = 0u64;
+    for avail in passes {
+        let meas: RefCell<HashMap<NodeId, u64>> = RefCell::new(HashMap::new());
+        taffy::verif_hooks::reset_queries();
+        taffy::verif_hooks::set_query_limit(query_limit);
+        taffy::verif_hooks::start_trace();
+        let res = std::panic::catch_unwind(std::panic::AssertUnwindSafe(|| {
+            t.compute_layout_with_measure(root, *avail, |known, av, id, ctx, _style| {
+                *meas.borrow_mut().entry(id).or_insert(0) += 1;
+                treegen::measure(known, av, ctx)
+            })
+            .unwrap();
+        }));
+        let trace = taffy::verif_hooks::take_trace();
+        taffy::verif_hooks::set_query_limit(u64::MAX);
+        if res.is_err() {
+            return None;
+        }
+        let mut q: HashMap<NodeId, (u64, u64)> = HashMap::new();
+        for ev in &trace {
+            if let taffy::verif_hooks::Event::Query { node, hit, .. } = ev {
+                let e = q.entry(*node).or_insert((0, 0));
+                e.0 += 1;
+                total += 1;
+                if *hit {
+                    e.1 += 1;
+                }
+            }
+        }
+        for id in &ids {
+            let l = t.unrounded_layout(*id);
+            let b = treegen::layout_bits(l);
+            r.push(b[0] as u64);
+            r.extend(b[1..].iter().map(|x| canon(f32::from_bits(*x))));
+            let (nq, nh) = q.get(id).copied().unwrap_or((0, 0));
+            r.extend([nq, nh, meas.borrow().get(id).copied().unwrap_or(0)]);
+        }
+    }
+    Some((r, total))
+}
+
+fn enc_case(spec: &NodeSpec, passes: &[Size<AvailableSpace>]) -> Vec<u64> {
+    let mut c: Vec<u64> = vec![passes.len() as u64];
+    for avail in passes {
+        enc_avail(avail.width, &mut c);
+        enc_avail(avail.height, &mut c);
+    }
+    enc_node(spec, &mut c);
+    c
+}
+
+/// `C` / `R` lines of the real-cache mode; third = number of layout fields differing from the exact-key run
+pub fn lines_real(spec: &NodeSpec, passes: &[Size<AvailableSpace>]) -> (String, String, usize) {
+    let c = enc_case(spec, passes);
+    let exact = lay_out(spec, passes, true);
+    let (real, _) = lay_out_real(spec, passes, u64::MAX).unwrap();
+    let differ = exact.chunks(21).zip(real.chunks(24)).map(|(a, b)| a.iter().zip(b.iter()).filter(|(x, y)| x != y).count()).sum();
+    let j = |v: &Vec<u64>| v.iter().map(|x| x.to_string()).collect::<Vec<_>>().join(" ");
+    (format!("C {}", j(&c)), format!("R {}", j(&real)), differ)
+}
+
+pub const CHAIN_QUERY_LIMIT: u64 = 1500;
+pub const NCHAINS: u64 = 576;
+
+/// deterministic chain corpus: depth 1..16 block containers over one measured leaf
+pub fn bchain(idx: u64) -> (NodeSpec, Vec<Size<AvailableSpace>>) {
+    let depth = 1 + (idx % 16) as usize;
+    let mix = (idx / 16) % 6;
+    let which_leaf = (idx / 96) % 2;
+    let which_avail = (idx / 192) % 3;
+    let plain = Style { display: Display::Block, ..Default::default() };
+    let fixed = Style { display: Display::Block, size: Size { width: length(200.0), height: auto() }, ..Default::default() };
+    let padded = Style {
+        display: Display::Block,
+        padding: Rect { left: length(4.0), right: length(4.0), top: length(2.0), bottom: length(2.0) },
+        margin: Rect { left: length(3.0), right: length(3.0), top: length(3.0), bottom: length(3.0) },
+        min_size: Size { width: length(10.0), height: auto() },
+        ..Default::default()
+    };
+    let capped = Style { display: Display::Block, max_size: Size { width: length(120.0), height: auto() }, ..Default::default() };
+    let absolute = Style { display: Display::Block, position: Position::Absolute, ..Default::default() };
+    let leaf = match which_leaf {
+        0 => Style::default(),
+        _ => Style { size: Size { width: length(50.0), height: auto() }, ..Default::default() },
+    };
+    let mut node = NodeSpec { style: leaf, ctx: Some(Ctx::Text(17, 8.0)), children: vec![] };
+    for d in 0..depth {
+        // d = 0 is the container directly above the leaf
+        let st = match mix {
+            0 => plain.clone(),
+            1 => fixed.clone(),
+            2 => padded.clone(),
+            3 => if d % 2 == 0 { plain.clone() } else { fixed.clone() },
+            4 => if d == depth / 2 && d + 1 < depth { absolute.clone() } else { plain.clone() },
+            _ => capped.clone(),
+        };
+        node = NodeSpec { style: st, ctx: None, children: vec![node] };
+    }
+    let avail = match which_avail {
+        0 => Size::MAX_CONTENT,
+        1 => Size { width: AvailableSpace::Definite(300.0), height: AvailableSpace::Definite(200.0) },
+        _ => Size { width: AvailableSpace::MinContent, height: AvailableSpace::MaxContent },
+    };
+    (node, vec![avail])
+}
+
 pub fn lines(spec: &NodeSpec, passes: &[Size<AvailableSpace>]) -> (String, String, usize) {
     let mut c: Vec<u64> = vec![passes.len() as u64];
     for avail in passes {
@@ -166,11 +290,12 @@ pub fn main(args: &[String]) {
     match cmd {
         "cases" => {
             let (seed, n, start) = (num(1, 1), num(2, 100), num(3, 0));
+            let real = args.get(4).map(|s| s == "real").unwrap_or(false);
             let mut lossy = 0;
             let mut f = [0u64; 12];
             for idx in start..start + n {
                 let (spec, passes) = bcase(seed, idx);
-                let (c, r, d) = lines(&spec, &passes);
+                let (c, r, d) = if real { lines_real(&spec, &passes) } else { lines(&spec, &passes) };
                 println!("{c}\n{r}\nL {d}");
                 if d > 0 {
                     lossy += 1;
@@ -181,6 +306,19 @@ pub fn main(args: &[String]) {
                 "SUMMARY cases={} real_key_differs={} nodes={} containers={} hidden={} absolute={} measured={}",
                 n, lossy, f[0], f[1], f[2], f[3], f[4]
             );
+        }
+        "chains" => {
+            let (n, start) = (num(1, NCHAINS), num(2, 0));
+            std::panic::set_hook(Box::new(|_| {}));
+            for idx in start..(start + n).min(NCHAINS) {
+                let (spec, passes) = bchain(idx);
+                let j = |v: &Vec<u64>| v.iter().map(|x| x.to_string()).collect::<Vec<_>>().join(" ");
+                match lay_out_real(&spec, &passes, CHAIN_QUERY_LIMIT) {
+                    Some((r, q)) => println!("C {}\nR {}\nQ {} {}", j(&enc_case(&spec, &passes)), j(&r), idx, q),
+                    None => println!("SKIP {} {}", idx, CHAIN_QUERY_LIMIT),
+                }
+            }
+            println!("DONE");
         }
         "case" => {
             let (seed, idx) = (num(1, 1), num(2, 0));
